@@ -776,19 +776,28 @@ impl Exec {
                 let dst = parse_byte(dst)?;
                 Some(hex(&c.get_response().generate_transport_header(dst).0))
             }
+            // conversions: numeric value of the resulting variant AND its name (a consistent
+            // renumbering of the enum would keep `from(b) as u8 == b`)
             ["conv", "cmd", b] => {
                 let b = parse_byte(b)?;
-                Some(format!("{:02x}", CommandCode::from(b) as u8))
+                let v = CommandCode::from(b);
+                Some(format!("{:02x} {:?}", v as u8, v))
             }
             ["conv", "msg", b] => {
                 let b = parse_byte(b)?;
-                Some(format!("{:02x}", MessageType::from(b) as u8))
+                let v = MessageType::from(b);
+                let name = format!("{:?}", v);
+                Some(format!("{:02x} {}", v as u8, name))
             }
             ["conv", "cc", b] => {
                 let b = parse_byte(b)?;
-                let r = catch_unwind(|| CompletionCode::from(b) as u8);
+                let r = catch_unwind(|| {
+                    let v = CompletionCode::from(b);
+                    let name = format!("{:?}", v);
+                    format!("{:02x} {}", v as u8, name)
+                });
                 Some(match r {
-                    Ok(v) => format!("{:02x}", v),
+                    Ok(v) => v,
                     Err(_) => panic_text(),
                 })
             }
